@@ -10,7 +10,7 @@ Import ListNotations.
 (* Mirror of harness/c12.py FIXED.  false = the code as it is (decoration appends
    the location suffix every time it runs); true = decoration made idempotent by the
    proposed one-line guard in _update_error_with_char_pos. *)
-Definition code_is_fixed : bool := false.
+Definition code_is_fixed : bool := true.
 
 (* ------------------------------------------------------------------ python values *)
 
